@@ -59,6 +59,15 @@ def tree_of(root):
 
 
 def gen_text(rng):
+    r = rng.random()
+    if r < 0.08:
+        return ""                                   # the module is emptied
+    if r < 0.16:
+        return "_%s = 1\n" % rng.choice(NAMES)     # only underscored (not indexed) names are left
+    if r < 0.22:
+        return "%s = (\n" % rng.choice(NAMES)      # a syntax error: no names can be read
+    if r < 0.27:
+        return "import os\n"                        # only an import
     lines = ["%s = %d" % (n, rng.randint(0, 9)) for n in rng.sample(NAMES, rng.randint(1, 2))]
     if rng.random() < 0.3:
         lines.append("def %s():\n    return 1" % rng.choice(["fa", "fb"]))
@@ -96,8 +105,12 @@ def gen_step(rng, root):
     if not pys or r < 0.22:
         p = free_file()
         return None if p is None else ["create_write", p, gen_text(rng)]
-    if r < 0.38:
+    if r < 0.30:
         return ["write", rng.choice(pys), gen_text(rng)]
+    if r < 0.38:
+        # the module loses all its indexable names: emptied, only underscored names, a syntax error, only an import
+        return ["write", rng.choice(pys), rng.choice(["", "_%s = 1\n" % rng.choice(NAMES), "%s = (\n" % rng.choice(NAMES),
+                                                       "import os\n", "# nothing left\n"])]
     if r < 0.46:
         p = free_dir()
         return None if p is None else ["mkpkg", p, gen_text(rng)]
@@ -238,7 +251,7 @@ def run_history(steps=None, rng=None, nsteps=0):
 
 
 def run(ctx):
-    n = ctx.scale(10, 120)
+    n = ctx.scale(25, 200)
     for _ in range(n):
         rng = random.Random(ctx.rng.getrandbits(48))
         res = run_history(rng=rng, nsteps=rng.randint(5, 12))
